@@ -127,3 +127,34 @@ Proof.
   - now apply (wf_comp_ok (eff_of k)).
   - now apply (wf_ascii (eff_of k)).
 Qed.
+
+(** a character that is not literal for the configuration, not '%' and not an upper-case
+    hex digit cannot occur in well-formed output *)
+Lemma wf_no_char k o c :
+  wf k o = true -> lit_ok k c = false -> (c =? 37) = false -> is_upper_hex c = false -> mem c o = false.
+Proof.
+  intros W L P Hx. induction o as [o IH] using len_ind. destruct o as [|x r]; [reflexivity|].
+  cbn [wf mem] in *. destruct (x =? 37) eqn:E.
+  - destruct r as [|h1 [|h2 r']]; try discriminate.
+    apply andb_true_iff in W as [H12 Hr]. apply andb_true_iff in H12 as [H1 H2].
+    cbn [mem]. rewrite (IH r' ltac:(cbn; lia) Hr).
+    assert (x =? c = false) by lia.
+    assert (h1 =? c = false) by (destruct (h1 =? c) eqn:Q; [apply N.eqb_eq in Q; subst; congruence|reflexivity]).
+    assert (h2 =? c = false) by (destruct (h2 =? c) eqn:Q; [apply N.eqb_eq in Q; subst; congruence|reflexivity]).
+    now rewrite H, H0, H3.
+  - apply andb_true_iff in W as [Hl Hr]. rewrite (IH r ltac:(cbn; lia) Hr).
+    assert (x =? c = false) by (destruct (x =? c) eqn:Q; [apply N.eqb_eq in Q; subst; congruence|reflexivity]).
+    now rewrite H.
+Qed.
+
+(** the user/password quoter never leaves a raw '@' or ':' (nor '/', '?', '#', '[', ']') *)
+Theorem userinfo_quoter_no_delims b s c :
+  valid_str s -> In c [64; 58; 47; 63; 35; 91; 93] ->
+  mem c (quote_impl b (eff_of QUOTER) s) = false /\ mem c (quote_impl b (eff_of REQUOTER) s) = false.
+Proof.
+  intros Hv Hc.
+  assert (Q1 : qeff_ok (eff_of QUOTER)) by (apply cfg_ok_in; cbn; auto).
+  assert (Q2 : qeff_ok (eff_of REQUOTER)) by (apply cfg_ok_in; cbn; auto).
+  split; (eapply wf_no_char; [apply quote_impl_wf; assumption| | |]);
+    cbn [In] in Hc; repeat (destruct Hc as [<-|Hc]; [vm_compute; reflexivity|]); contradiction.
+Qed.
